@@ -1199,6 +1199,8 @@ STRUCTS["SlicePayload"] = dict(lean="(Nat × List Word)", ctor=None, fields={}, 
 STRUCTS["RawVectorMapper"] = dict(lean="RawMapperR", ctor=lambda v: "(⟨%s, %s⟩ : RawMapperR)" % (v["len"], v["data"]), fields={"len": U, "data": MSLICE}, fieldmap={})
 STRUCTS["IntVectorMapper"] = dict(lean="IntMapperR", ctor=lambda v: "(⟨%s, %s, %s⟩ : IntMapperR)" % (v["len"], v["width"], v["data"]),
                                   fields={"len": U, "width": U, "data": RAWMAP}, fieldmap={})
+STRUCTS["MappedOption"] = dict(lean="MappedOptionR", ctor=lambda v: "(⟨%s, %s, %s⟩ : MappedOptionR)" % (v["data"], v["offset"], v["data_len"]),
+                               fields={"data": ("O", MSLICE), "offset": U, "data_len": U}, fieldmap={"data_len": "dataLen"})
 MAP_PARAMS = {"map": ("(file : Array Word)", A, "file")}
 VIEW_CALLS = {
     "map.len": dict(lean="file.size", ret=U, monadic=False),
@@ -1251,6 +1253,12 @@ GROUPS.append(("FnsMapNew.lean", ["Sds.Model.GenStructs", "Sds.Model.GenSupport"
          source_subst=[(r"let\s+source\s*:\s*&\[u64\]\s*=\s*&slice\[offset \+ 1 \.\.\];\s*let\s+bytes\s*:\s*&\[u8\]\s*=\s*unsafe\s*\{\s*slice::from_raw_parts\(source\.as_ptr\(\) as \*const u8, len\)\s*\};\s*let data = str::from_utf8\(bytes\)\.map_err\(\|_\| Error::new\(ErrorKind::InvalidData, \"Invalid UTF-8\"\)\)\?;",
                         "let data = PAYLOAD; utf8_check(data);")],
          paths={"PAYLOAD": ("(len, (file.toList.drop (offset + 1)).take ((len + 7) / 8))", ("N", "SlicePayload"))}),
+    # `MappedOption<T>::new` at an arbitrary inner view constructor `T::new` (a parameter); the zero-sized `_marker` field is dropped
+    dict(file="serialize.rs", impl=r"impl<'a, T: MemoryMapped<'a>> MemoryMapped<'a> for MappedOption<'a, T>", fn="new", name="gen_MappedOption_new",
+         calls=dict(VIEW_CALLS, **{"T::new": dict(lean="inner {0} {1}", ret=MSLICE, args=[A, U])}),
+         params=MAP_PARAMS, binders=["(inner : Array Word → Nat → Outcome MappedSliceR)"],
+         tyalias={"Self": ("N", "MappedOption")}, ret=("N", "MappedOption"), err_as_fault=True,
+         source_subst=[(r"_marker: marker::PhantomData,", "")]),
     dict(file="raw_vector.rs", impl=IMPL_RM, fn="new", name="gen_RawVectorMapper_new", calls=VIEW_CALLS, params=MAP_PARAMS, tyalias={"Self": RAWMAP}, ret=RAWMAP,
          err_as_fault=True),
     dict(file="raw_vector.rs", impl=IMPL_RM, fn="map_offset", name="gen_RawVectorMapper_map_offset", self=RM_SELF, calls=view_calls("MappedSlice")),
